@@ -57,4 +57,10 @@ CLAIMS["C15"] = proof(
     "Proved for every history of the Mutex, Semaphore and RwLock machines: strong count = handles + owned guards + owning futures (C15_*_count); dropped exactly when the count reaches 0, at most once, "
     "for Mutex and Semaphore (C15_*_dropped_once); an owned guard implies strong >= 1. Drop-once for RwLock not yet proved (monitored). Memory safety of the unsafe Arc plumbing is outside the model. " + CORR, NOTE)
 
+CLAIMS["C07"] = proof(
+    "History half proved at full strength: C07_hist — for every history (every initial count and add_permits argument, cancellation at every point incl. a notified waiter, completed futures kept alive, several releases in a row) "
+    "in every quiescent reachable state with a permit available no polled acquire future is pending; from the ownership invariant of the event list (C07_invariant). The code proved is the repaired one (fix 4946253). "
+    "Schedule half NOT proved: under true thread interleaving a notified waiter can consume its notification after two releases were absorbed by it and then acquire without passing anything on (candidate defect, not yet reproduced with loom); "
+    "poll-granular histories cannot exhibit it. " + CORR, NOTE)
+
 NOT_APPLICABLE = []
